@@ -949,7 +949,10 @@ def check_C15(run):
     # --- continuations
     Bs = list(gen.FR) + gen.fragments(rng.fork("fb"), n, 5) + gen.open_code(rng.fork("ob"), n // 3, 5) + gen.unicode_stress(rng.fork("ub"), n // 8)
     Bs += [grammar.render(p)[0] for p in grammar_programs(run, rng.fork("gb"), n // 4, 2)]
-    Bs += ["datalines;\n1\n;", "cards;", "* c;", "*", "%then", "%let a=1;", "%else x", "%lbl: a", "=1", ")", "%mend;", "%end;", "1", "x", ":", "%to 1", "eq", "'", "\"", "%*c;", "/*", "%str(", "%m(", "&a", "%", "&"]
+    # starts whose reading depends on what the lexer remembers of the text before them (statement start, look-behind)
+    SENS = ["datalines;\n1\n;", "cards;", "* c;", "*", "\n* c;\nx;", " * c ; y", "%then", "%let a=1;", "%else x", "%lbl: a", "=1", ")", "%mend;", "%end;", "1", "x", ":", "%to 1", "eq", "'", "\"", "%*c;", "/*", "%str(", "%m(", "&a", "%", "&",
+            "lines4;\nx\n;;;;", "%m * c;", "/*c*/ * c;", "%mend; * c;", "%end; * c;", "; * c;"]
+    Bs += SENS
     Bs = [b for b in dict.fromkeys(Bs) if not b.startswith("\ufeff")]
     rp = rng.fork("pairs")
     pairs = []
@@ -967,9 +970,13 @@ def check_C15(run):
     suspicious = [i for i in closed_idx if cands[i] in gram and not O.closed_prefix(O.Ctx(ca["release"][i], T))]
     suspicious.sort(key=lambda i: len(cands[i]))
     for i in suspicious[:tier_n(run, 40, 400)]:
-        for b in gen.FR:
+        for b in list(gen.FR) + SENS:
             if not b.startswith("\ufeff"):
                 pairs.append((i, b))
+    # ... and, for residue that only shows after particular programs, the state-sensitive starts after all of them
+    for i in suspicious[:tier_n(run, 400, 2000)]:
+        for b in SENS:
+            pairs.append((i, b))
     pairs = list(dict.fromkeys(pairs))
     bset = list(dict.fromkeys(b for _, b in pairs))
     bidx = {b: k for k, b in enumerate(bset)}
